@@ -37,6 +37,7 @@ func init() {
 		ruleCaptureBeforeProject(c, "C01-R5")
 		ruleMainToShadow(c, "C01-R5", "C01-R5", "C01-R5")
 		ruleEmptyPut(c, "C01-R5")
+		ruleIterBoth(c, "C01-R5", "C01-R5", "C01-R5")
 		c.Rule("C01-R7", "INDIRECT: raw-read mode only in read-only snapshot transactions (aliasing corrupts merges); snapshot names sort chronologically (peers take the last name as an instance's newest)")
 		ruleRawReadWriters(c, "C01-R7")
 		ruleNameLayout(c, "C01-R7")
@@ -125,6 +126,7 @@ func init() {
 		c.Rule("C03-R9", "INDIRECT: the two-sided walk visits every stored key also for an empty input (Clean for emptied DBIs); remote entries are merged with default timestamp 0 and the load-time cutoff")
 		ruleEmptyPut(c, "C03-R9")
 		ruleIterBoth(c, "C03-R9", "C03-R9", "C03-R9")
+		ruleSweeperCutoff(c, "C03-R9")
 		ruleLoadBody(c, "C03-R9", "C03-R9", "C03-R9", "C03-R9", "C03-R9")
 	})
 }
@@ -145,6 +147,7 @@ func init() {
 		ruleReadDBILoop(c, "C04-R1", true)
 		ruleCleanTable(c, "C04-R2")
 		ruleIterUpdateTable(c, "C04-R2")
+		ruleIterBoth(c, "C04-R2", "C04-R2", "C04-R2")
 		t := BuildMergeTable(c, "syncer.(*NativeIterator).Merge")
 		if t != nil {
 			u := buildUniverse(t, c.Tier == "thorough")
@@ -165,6 +168,8 @@ func init() {
 		c.Rule("C04-R9", "DELETIONS-CAPTURED: in shadow mode the capture pass runs for every application DBI unconditionally (an emptied DBI included), so every disappeared key gets its marker")
 		ruleMainToShadow(c, "C04-R9", "C04-R9", "C04-R9")
 		ruleLoadBody(c, "C04-R6", "C04-R6", "C04-R6", "C04-R6", "C04-R6")
+		c.Rule("C04-R10", "HOOKS-ONLY-FROM-EMBEDDER: no built-in FilterReadDBI keeps deletion markers out of the snapshots")
+		ruleHooksFromEmbedder(c, "C04-R10")
 	})
 
 	register("C05", propMeta{
@@ -190,6 +195,8 @@ func init() {
 		ruleCommittedCopied(c, "C05-R5")
 		c.Rule("C05-R8", "CORRUPT-ONLY-ON-DECODE-ERROR: a snapshot is marked corrupt (ignored from then on) only when decoding it failed")
 		ruleMarkCorrupt(c, "C05-R8")
+		c.Rule("C05-R9", "NAMES-ORDER-BY-TIME: the time field of a snapshot name is the UTC rendering of the snapshot time (the cleaner and the receiver take the last name of an instance as its newest)")
+		ruleNameLayout(c, "C05-R9")
 	})
 
 	register("C06", propMeta{
@@ -206,6 +213,7 @@ func init() {
 		ruleOneTxn(c, "C06-R1", fnSendOnce, fnSendTxn, []string{fnReadDBI, fnMainToSh, "lmdbenv.ReadDBINames"})
 		ruleSendDump(c, "C06-R2", "C06-R4", "C06-R2")
 		ruleCollectionExhausted(c, "C06-R2", fnSendTxn, collDBINames, "the DBI names of the environment", nil)
+		ruleAllNamesListed(c, "C06-R2")
 		ruleReadDBILoop(c, "C06-R3", false)
 		ruleSendNaming(c, "C06-R5")
 		ruleReadDBIFlags(c, "C06-R6", "C06-R6")
@@ -216,6 +224,8 @@ func init() {
 		ruleRawReadRestored(c, "C06-R8")
 		ruleRawReadWriters(c, "C06-R8")
 		ruleParseTable(c, "C06-R8")
+		c.Rule("C06-R9", "HOOKS-ONLY-FROM-EMBEDDER: no hook (FilterReadDBI in particular) is installed by the repository's own code; what readDBI leaves out is decided by the embedder's hook alone")
+		ruleHooksFromEmbedder(c, "C06-R9")
 	})
 
 	register("C09", propMeta{
@@ -240,6 +250,9 @@ func init() {
 		// an instance does not publish before it has merged its own newest snapshot: that download is retried
 		ruleRetryAndNotify(c, "C09-R6")
 		ruleMainToShadow(c, "C09-R6", "C09-R6", "C09-R6")
+		c.Rule("C09-R7", "WAIT-SET-DRAINS: an instance whose snapshots disappeared from the listing (the own one included, an empty listing included) leaves the set the first upload waits for")
+		ruleCleanDisappeared(c, "C09-R7")
+		ruleWaitSet(c, "C09-R7")
 	})
 
 	register("C10", propMeta{
@@ -266,6 +279,7 @@ func init() {
 		ruleCleanTable(c, "C10-R2")
 		ruleTrigger(c, "C10-R3", "C10-R3")
 		ruleWatermarkWriters(c, "C10-R4")
+		ruleLocalChangeOnlyByTxnID(c, "C10-R4")
 		c.Rule("C10-R5", "NO-REBUILD: a plain DBI is projected with IterUpdate (no write when unchanged); only dupsort DBIs are rebuilt")
 		ruleShadowToMain(c, "C10-R5", "C10-R5")
 		c.Rule("C10-R6", "CUTOFF-PROVENANCE: the stale-marker cutoff is on exactly when the sweeper is (a swept marker re-added by every load is swept again: a commit and an echo upload per exchange)")
@@ -290,6 +304,7 @@ func init() {
 		ruleLoadErrReturned(c, "C18-R2")
 		ruleNextEOF(c, "C18-R2")
 		ruleVersionGates(c, "C18-R3")
+		ruleVersionFieldsAsDeclared(c, "C18-R3")
 		t := BuildMergeTable(c, "syncer.(*NativeIterator).Merge")
 		if t != nil {
 			u := buildUniverse(t, false)
@@ -366,6 +381,7 @@ func init() {
 		c.Rule("C13-R7", "SLICE-ERROR-ABORTS: a failed slice transaction ends the pass with an error before the resume flag is looked at")
 		ruleSweepSliceErrors(c, "C13-R7")
 		ruleCollectionExhausted(c, "C13-R7", fnSweep, collLocalNames, "the DBI names of the environment", nil)
+		ruleEveryDBISwept(c, "C13-R7")
 		ruleRawReadWriters(c, "C13-R5")
 	})
 }
@@ -397,6 +413,8 @@ func init() {
 		ruleLimiter(c, "C16-R6")
 		c.Rule("C16-R7", "LABEL-ARITY: metric vectors get as many label values as they declare (a mismatch panics on the download-failure path instead of retrying)")
 		ruleMetricLabelArity(c, "C16-R7")
+		c.Rule("C16-R8", "WHOLE-STREAM: a valid blob is never refused by the loader for a reason other than a decode error (every refusal marks it corrupt for good)")
+		ruleWholeStream(c, "C16-R8")
 	})
 }
 
@@ -458,6 +476,7 @@ func init() {
 		ruleShadowToMain(c, "C11-R7", "C11-R7")
 		ruleCollectionExhausted(c, "C11-R7", fnMainToSh, collDBINames, "the DBI names of the environment", nil)
 		ruleCollectionExhausted(c, "C11-R7", fnShToMain, collDBINames, "the DBI names of the environment", nil)
+		ruleAllNamesListed(c, "C11-R7")
 		ruleSyncedIdBound(c, "C11-R7")
 		ruleRawReadRestored(c, "C11-R8")
 		ruleRawReadWriters(c, "C11-R8")
@@ -572,7 +591,7 @@ func init() {
 		ruleSchemaTables(c, "C07-R1", "C07-R4")
 		ruleAppendSizes(c, "C07-R2")
 		ruleReadAtCursor(c, "C07-R3", "C07-R3")
-		ruleLengthGuarded(c, "C07-R3")
+		ruleLengthGuarded(c, "C07-R3", true)
 		ruleNextEOF(c, "C07-R3")
 		// every DBI is written, every field of the message is looked at
 		ruleCollectionExhausted(c, "C07-R1", "snapshot.(*Snapshot).WriteTo", `[^()]*\.Databases`, "the DBIs of the snapshot", nil)
@@ -601,7 +620,7 @@ func init() {
 		c.Rule("C08-R4", "CORRUPT-IGNORED")
 		c.Rule("C08-R5", "DECODE-ERRORS-SURFACE")
 		c.Rule("C08-R6", "RESOURCE bounds visible in the code shape")
-		ruleLengthGuarded(c, "C08-R1")
+		ruleLengthGuarded(c, "C08-R1", false)
 		ruleReadAtCursor(c, "C08-R2", "C08-R2")
 		ruleNoPanic(c, "C08-R3")
 		ruleDownloaderLoad(c, "C08-R4", "C08-R4", "C08-R4")
@@ -612,6 +631,7 @@ func init() {
 		ruleCollectionExhausted(c, "C08-R4", fnRecvRun, `makemap@[\w~]+`, "the newest snapshot of every instance", nil)
 		ruleRetryAndNotify(c, "C08-R4")
 		ruleCleanDisappeared(c, "C08-R4")
+		ruleListingIncludesOwn(c, "C08-R4")
 		c.Rule("C08-R7", "LABEL-ARITY: metric vectors get as many label values as they declare (a mismatch panics on the failure path)")
 		ruleMetricLabelArity(c, "C08-R7")
 		ruleErrFlow(c, "C08-R5", "snapshot.LoadData", "snapshot.(*Snapshot).Unmarshal", "snapshot.NewDBIFromData", "snapshot.(*Meta).Unmarshal", "snapshot.(*DBI).indexData", "snapshot.(*DBI).Next", "snapshot.(*KV).Unmarshal", "snapshot.skipTag")
